@@ -104,6 +104,7 @@ theorem breakDetect_length (stmts : List Node) (roEnd : Option Int) (l : List No
 mutual
   def cdDepth : Node → Nat
     | .stmt _ (.repeat_ _ _ _ body _ _ _ _ _) => 1 + cdDepthL body
+    | .stmt _ (.tell _ _ inner _) => 1 + cdDepthL inner
     | _ => 0
   def cdDepthL : List Node → Nat
     | [] => 0
@@ -183,17 +184,27 @@ def isRepeatStmt : Node → Bool
   | .stmt _ (.repeat_ ..) => true
   | _ => false
 
+def isTellStmt : Node → Bool
+  | .stmt _ (.tell ..) => true
+  | _ => false
+
+/-- a statement whose own statement list `condition_detect_in_statements` recurses into -/
+def isNestStmt (x : Node) : Bool := isRepeatStmt x || isTellStmt x
+
 mutual
   /-- `condition_detect_in_statements(statements, repeat_op)`; `roEnd` = `repeat_op.end_position` -/
   def condDetectD (d : Nat) (stmts : List Node) (roEnd : Option Int) : R (List Node) := do
-    -- first loop, part 1: nested repeats
+    -- first loop, part 1: nested repeats and tell blocks
     let stmts1 ← match hd : d with
-      | 0 => if stmts.any isRepeatStmt then (.error .other : R (List Node)) else pure stmts
+      | 0 => if stmts.any isNestStmt then (.error .other : R (List Node)) else pure stmts
       | d' + 1 => stmts.mapM fun st =>
           match st with
           | .stmt p (.repeat_ rp re c body t s v sg vr) => do
             let body' ← condDetectD d' body (some re)
             pure (.stmt p (.repeat_ rp re c body' t s v sg vr))
+          | .stmt p (.tell tp operand inner closed) => do       -- a tell block has its own conditions (same enclosing loop)
+            let inner' ← condDetectD d' inner roEnd
+            pure (.stmt p (.tell tp operand inner' closed))
           | x => pure x
     -- first loop, part 2: which jz operations are handled at this level
     let sc ← stmts1.foldlM (scanStep roEnd) {}
@@ -451,6 +462,11 @@ mutual
         let ifs' ← loopDetect ifs
         let elses' ← loopDetect elses
         let st' := Node.stmt p (.ifThen ip c ifs' elses')
+        let (l, rem) ← loopWalk rest (some st')
+        pure (st' :: l, rem)
+      | .stmt p (.tell tp operand inner closed) => do
+        let inner' ← loopDetect inner
+        let st' := Node.stmt p (.tell tp operand inner' closed)
         let (l, rem) ← loopWalk rest (some st')
         pure (st' :: l, rem)
       | .stmt _ _ => do
